@@ -533,11 +533,16 @@ Definition run_hostnames_v0 (c : list (str * str) * list block) : list Z :=
   | Raise x => [exn_code x]
   end.
 
+(* a block's IdentityFile list up to repeats (a parser may or may not keep them; lookups cannot tell) *)
+Definition norm_block (d : dict) : dict :=
+  map (fun kv => if zlist_eqb (fst kv) s_identityfile
+                 then (fst kv, VList (dedup_extend [] (as_list (snd kv)))) else kv) d.
+
 (* one case per config: the parsed dictionary of every block, get_hostnames, then one lookup per host *)
 Definition run_config (c : (str * str * str * str) * list (str * str) * list block * list str) : list Z :=
   let '(t, global, blocks, hosts) := c in
   let hn := run_hostnames (global, blocks) in
-  flat_map (fun b => let r := enc_dict (block_config (b_body b)) in zlen r :: r) (parsed global blocks) ++
+  flat_map (fun b => let r := enc_dict (norm_block (block_config (b_body b))) in zlen r :: r) (parsed global blocks) ++
   zlen hn :: hn ++ flat_map (fun h => let r := run_lookup (t, global, blocks, h) in zlen r :: r) hosts.
 
 Definition run_glob (c : str * str) : list Z := [if glob (fst c) (snd c) then 1 else 0].
